@@ -42,6 +42,7 @@ import (
 	"verif/internal/snap"
 	"verif/internal/treegen"
 	"verif/internal/vrun"
+	"verif/internal/zipgen"
 )
 
 func limitsFor(name string) filesystem.ILimits {
@@ -309,6 +310,23 @@ func runCase(r *vrun.Run, c caseSpec, scratch string) {
 
 	// ------------------------------------------------------------------ (1) round trip
 	zerr := callZip(ctx, vfs, &c, src, zipPath)
+	if zerr == nil && c.Index%4 == 2 {
+		// history: the archive path already holds an earlier, longer archive when the tree is zipped
+		if first, rerr := afero.ReadFile(base, zipPath); rerr == nil {
+			stale := make([]byte, len(first)+4096)
+			for i := range stale {
+				stale[i] = byte(i*7 + i>>8)
+			}
+			prev, berr := zipgen.Build([]zipgen.Entry{zipgen.E("stale-a.txt", []byte("earlier archive")), {Name: "stale-big.bin", Data: stale, Size: len(stale), Store: true, Declared: -1}, zipgen.E("stale-z.txt", []byte("end of the earlier archive"))})
+			if berr != nil || len(prev) <= len(first) {
+				prev = append(append([]byte{}, first...), bytes.Repeat([]byte{0x5a}, 65536)...)
+			}
+			if werr := afero.WriteFile(base, zipPath, prev, 0o644); werr == nil {
+				r.Obs("archives_written_over_an_earlier_longer_archive", 1)
+				zerr = callZip(ctx, vfs, &c, src, zipPath)
+			}
+		}
+	}
 	var arch map[string]*archEntry
 	switch {
 	case timedOut(zerr):
